@@ -62,7 +62,7 @@ def gen_facts(log):
     out = LEAN + '/Hagall/Gen/Facts.lean'
     if not os.path.exists(f'{BIN}/extract'):
         return False
-    tmp = out + '.new'
+    tmp = out + f'.new.{os.getpid()}'   # two checks may run at the same time
     r = sh([f'{BIN}/extract', '-repo', REPO, '-out', tmp], env=GOENV, cwd=REPO)
     log.append(('extract', r.returncode, (r.stdout + r.stderr)[-4000:]))
     if r.returncode != 0:
